@@ -29,6 +29,8 @@ import (
 
 	"verif/harness/h"
 	"verif/harness/pol"
+	"verif/harness/sel"
+	"verif/harness/val"
 )
 
 type StoreInv struct {
@@ -129,13 +131,14 @@ func RunStore(c *h.Ctx, sc StoreCase, owner string) {
 		pool[i] = &poolEntry{tok: t, data: data, id: id, present: true}
 		ld.m[id] = pool[i]
 	}
+	commonArgs := map[string]*args.Args{}
 	invs := make([]*invocation.Token, len(sc.Invs))
 	for i, si := range sc.Invs {
 		var prf []cid.Cid
 		for _, k := range si.Proof {
 			prf = append(prf, pool[k%len(pool)].id)
 		}
-		t, err := BuildInv(si.Inv, prf)
+		t, err := BuildInvShared(si.Inv, prf, commonArgs)
 		if err != nil {
 			c.P.Class("store:build-error")
 			c.Logf("inv %d: %v", i, err)
@@ -391,16 +394,36 @@ func DrawStore(t *rapid.T, focus string) StoreCase {
 			}
 			cs.Dev = append(cs.Dev, fmt.Sprintf("time@%d/%d", pos, n))
 		}
+		// a pair of invocations derived from ONE common *args.Args (WithArguments) plus an argument of their own
+		// (WithArgument), with a statement of the chain that binds the first one's own argument
+		commonSib := len(cs.Links) > 0 && rapid.IntRange(0, 5).Draw(t, "commonsib") == 0
+		if commonSib {
+			for i := 0; len(cs.Inv.Args) < rapid.SampledFrom([]int{4, 4, 6, 7, 8}).Draw(t, "commonn") && i < 8; i++ {
+				k := fmt.Sprintf("f%d", i)
+				cs.Inv.Args = append([]val.KV{{K: k, V: val.Int(int64(i))}}, cs.Inv.Args...)
+			}
+			own := val.KV{K: "own", V: val.Str("mine")}
+			cs.Inv.Args = append(cs.Inv.Args, own)
+			cs.Inv.CommonArgs = len(cs.Inv.Args) - 1
+			li := rapid.IntRange(0, len(cs.Links)-1).Draw(t, "ownlink")
+			lit := own.V
+			cs.Links[li].Pol = append(append(pol.Policy{}, cs.Links[li].Pol...), pol.Stmt{Op: "==", Sel: sel.Sel{{Kind: "field", Name: "own"}}, Lit: &lit})
+		}
 		si := StoreInv{Inv: cs.Inv}
 		si.Inv.Hook = nil
-		_ = si
 		for _, l := range cs.Links {
 			si.Proof = append(si.Proof, add(l))
 		}
 		sc.Invs = append(sc.Invs, si)
 		sc.Dev = append(sc.Dev, cs.Dev...)
 		// a sibling invocation over the same proofs: other arguments / command / nonce, or issued by someone else
-		if rapid.IntRange(0, 2).Draw(t, "sibling") == 0 {
+		if commonSib {
+			n := len(si.Inv.Args)
+			sib := StoreInv{Inv: si.Inv, Proof: append([]int{}, si.Proof...)}
+			sib.Inv.Args = append(append([]val.KV{}, si.Inv.Args[:n-1]...), val.KV{K: "other", V: val.Int(1)})
+			sc.Invs = append(sc.Invs, sib)
+			sc.Dev = append(sc.Dev, "common-args-sibling")
+		} else if rapid.IntRange(0, 2).Draw(t, "sibling") == 0 {
 			sib := StoreInv{Inv: si.Inv, Proof: append([]int{}, si.Proof...)}
 			switch rapid.IntRange(0, 4).Draw(t, "sibkind") {
 			case 0:
